@@ -1233,6 +1233,54 @@ def rule_fresh_keys_and_state(rep: Report, ix, km: ck.KeyModel) -> None:
     rep.floor("make_stepper methods of solver classes", n_s, 2)
 
 
+
+def rule_expression_evaluators_keyed_by_consts(rep: Report, ix, sites) -> None:
+    """The back-ends copy the *values* of `expression.consts` into the evaluator they build (make_expression_function binds
+    them as a partial application).  `consts` is a public, mutable dictionary (PDE fills constants in after construction;
+    callers pass their own dict).  A cached method of an expression class whose result is such an evaluator must therefore
+    carry `consts` in its key (extra_args), otherwise an evaluator built before a constant was changed keeps being handed
+    out: the value of the expression depends on whether it was evaluated before the change."""
+    base = ix.cls("pde/tools/expressions.py", "ExpressionBase")
+    classes = set(ix.subclasses(base))
+
+    def reaches_evaluator(f: FuncInfo, depth: int = 0, seen=None) -> bool:
+        seen = seen or set()
+        if f in seen or depth > 4:
+            return False
+        seen.add(f)
+        for c in ast.walk(f.node):
+            if not isinstance(c, ast.Call):
+                continue
+            fn = c.func
+            if isinstance(fn, ast.Attribute) and fn.attr in ("make_expression_function", "_make_expression_array") and any(isinstance(a, ast.Name) and a.id == "self" for a in list(c.args) + [k.value for k in c.keywords]):
+                return True
+            if isinstance(fn, ast.Attribute) and isinstance(fn.value, ast.Name) and fn.value.id == "self" and f.cls is not None:
+                g = f.cls.find_method(fn.attr)
+                if g is not None and reaches_evaluator(g, depth + 1, seen):
+                    return True
+        return False
+
+    n = 0
+    for site in sites:
+        f = site.func
+        if f.cls is None or f.cls not in classes:
+            continue
+        if not reaches_evaluator(f):
+            continue
+        n += 1
+        ok = "consts" in site.extra_args
+        rep.oblige(f"evaluator-keyed-by-consts:{ck.display_name(f)}", ok, {"extra_args": site.extra_args})
+        if not ok:
+            rep.violation(
+                "C04.evaluator-ignores-consts",
+                f"{site.ref}::consts",
+                f"`{ck.display_name(f)}` is cached (extra_args={site.extra_args}) and returns an evaluator into which the back-end has copied the values of `self.consts`, but `consts` is not part of the "
+                "key: after `expr.consts[name] = new` the evaluator built earlier is returned again and the expression is evaluated with the old constant",
+                line=f.node.lineno,
+            )
+    rep.floor("cached expression methods that hand out evaluators", n, 2)
+
+
 def check(tier: str) -> Report:
     rep = Report("C04", tier, "other", "cache-key composition read from tools/cache.py + class index; interprocedural address-capture tracking; re-bind/invalidation rule")
     rep.explanation = (
@@ -1337,6 +1385,7 @@ def check(tier: str) -> Report:
     rule_numeric_hash(rep, ix, km, ka, facts, site_atoms)
     rule_cached_mutable_result(rep, ix, sites)
     rule_fresh_keys_and_state(rep, ix, km)
+    rule_expression_evaluators_keyed_by_consts(rep, ix, sites)
 
     rep.assumptions += [
         "annotations describe the argument types (values smuggled through Any/**kwargs are listed as unclassified notes)",
